@@ -390,7 +390,14 @@ def run(chk):
                 "names), all six optimizers with arbitrary setting bits; saved by the real code and by the model, every file loaded by both into fresh "
                 "objects on both devices with with_stats in all four save/load combinations. Non-trivial = the implementation returned a value / loaded "
                 "the file; distinct = distinct operation lines.")
+    import time
+    t0 = time.time()
+    def lap(what):
+        chk.notes.append("phase %s: %.1fs" % (what, time.time() - t0))
+        if os.environ.get("VERIF_PROF"):
+            print("phase %s: %.1fs" % (what, time.time() - t0), flush=True)
     chk.obligations(MODS, drivers=["msgpack", "files"])
+    lap("obligations")
 
     # ------------------------------------------------------------ msgpack
     wl = corpus("msgpack.ops") + msgpack_lines(rng, quick)
@@ -456,6 +463,7 @@ def run(chk):
     dis, judged, crashes = chk.correspond("msgpack", "h_msgpack", [mp_lines], stateful=False, judge=mp_judge,
                                           post=mp_post, cmp=mp_cmp)
     report(chk, "msgpack", "h_msgpack", dis, judged)
+    lap("msgpack")
 
     # ------------------------------------------------------------ files
     objs = []  # (kind, object, save token words)
@@ -490,6 +498,7 @@ def run(chk):
     exe = build.build_harness("h_files")
     impl_raw, _ = vrun.run_impl(exe, [s[0] for s in saves])
     model_hex = vrun.run_model("files", [s[0] for s in saves])
+    lap("files-saves")
 
     # load lines: the implementation's own bytes and the model's bytes, into fresh objects
     loads, expect_l = [], {}
@@ -545,6 +554,7 @@ def run(chk):
     f_lines = save_lines + loads
     dis, judged, crashes = chk.correspond("files", "h_files", [f_lines], stateful=False, judge=f_judge, post=f_post)
     report(chk, "files", "h_files", dis, judged)
+    lap("files")
 
     broken = chk.broken_obligations()
     if broken and not chk.violations:
